@@ -11,8 +11,9 @@ THEOREMS = [(M, "NQ.C08." + n) for n in [
     "expansions_have_no_branch", "index_is_expansion_start", "index_monotone", "output_structure",
     "branch_lands_on_expansion", "nongate_order", "scratch_ok", "transpile_simulates_partial",
     "transpile_simulates_final_partial", "pad_is_set", "set_writes_gen",
+    "templates_eq_nvdecomp", "expandSound_of_C07", "transpile_simulates_C07_partial",
     "f10_counterexample_asserts", "f10_counterexample_stale", "f26_fixed_witness"]]
-TRANSLATORS = ["nv_expand"]
+TRANSLATORS = ["nv_expand", "nv_decomp"]
 LEVEL_TEXT = (
     "Lean theorems about a literal model of NVSubroutineTranspiler.transpile (all vanilla subroutines, any "
     "length, both debug settings, both hardware settings): index_changes[i] is the serialised start of the "
@@ -24,7 +25,10 @@ LEVEL_TEXT = (
     "QStatic programs given the C07 gate hypothesis (transpile_simulates_partial, and "
     "transpile_simulates_final_partial for terminating runs: same memory and non-Q registers modulo the padding "
     "register C15 when the padding was appended; the unrestricted statement is false: F10, proved "
-    "counter-examples). Tie: expansion templates, class facts and padding regenerated "
+    "counter-examples). The gate hypothesis is DISCHARGED for the generated table and a concrete semantics "
+    "(expandSound_of_C07, transpile_simulates_C07_partial): gates apply the operator of their mnemonic; the proof "
+    "uses C07's single_gates_eq / cnot_placements_eq / cphase_placements_eq and the kernel-decided tie "
+    "templates_eq_nvdecomp (Gen/NvExpand templates read over roles = Gen/NvDecomp sequences). Tie: expansion templates, class facts and padding regenerated "
     "from the live code; syntactic correspondence (equal instruction lists / same exception class) between "
     "the compiled model and the real pass on structured programs, instruction soup and real-SDK output; "
     "model-free state-vector oracle on the real Executor.")
@@ -41,9 +45,11 @@ TRUSTED = [
     "translate/nv_expand.py: expansion templates obtained by running the live _map_*/_move_* methods with "
     "sentinel registers and probe angles; class facts from isinstance/writes_to on live instances",
     "harness/transpile.py: correspondence stream and numpy state-vector executor (subclass of the real Executor)",
-    "hypothesis ExpandSound (each instantiated expansion acts as its gate, leaving only the scratch register "
-    "changed) is C07's obligation; hypotheses of Sem (an instruction reads only registers it names and writes "
-    "only writes_to()) are C04's",
+    "QLawful (standard mathematics, not re-proved): an exact operator identity on k roles holds on the whole "
+    "register under any injective assignment of qubits to roles (scalar = global phase); a rotation depends only "
+    "on its angle. gnameOf: class name -> mnemonic (C07's matrices stream ties mnemonics to published matrices)",
+    "SemLocal for the classical instructions (an instruction reads only registers it names and writes only "
+    "writes_to()) is C04's; mov has no semantics in the concrete model MQ",
 ]
 ASSUMPTIONS = [
     "instructions are (class, operand values); lineno is ignored",
